@@ -125,9 +125,20 @@ def _one(item):
     # ---- construct the real thing
     mode_N = bool(rng.random() < 0.3)
     try:
-        xg = interpolation.XGrid(xs.astype(np.float32) if as_f32 else xs.copy(), log=is_log)
+        xin = xs.astype(np.float32) if as_f32 else xs.copy()
+        order_kind = int(rng.integers(8))
+        if order_kind == 0:  # the same set of nodes listed in descending order
+            xin = xin[::-1].copy()
+            hit("unsorted_input_grid")
+        elif order_kind == 1:  # ... or in arbitrary order
+            xin = xin[rng.permutation(len(xin))]
+            hit("unsorted_input_grid")
+        xg = interpolation.XGrid(xin, log=is_log)
         if as_f32:
             hit("float32_input_grid")
+        if not np.array_equal(np.asarray(xg.raw, dtype=float), xs):
+            fail(f"C34/construct/{mode}/nodes", f"XGrid nodes {np.asarray(xg.raw)[:4]}... are not the sorted input nodes {xs[:4]}...")
+            return rec
         disp = interpolation.InterpolatorDispatcher(xg, d, mode_N=mode_N)
     except Exception as e:
         fail(f"C34/construct/{mode}/raises", f"valid grid rejected: {type(e).__name__}: {e}")
